@@ -230,10 +230,10 @@ def explore(tier, seed):
 
     # (a) schedules
     if tier == "quick":
-        plans = [("semgrep-detected", "line", 1), ("detector-less", "coarse", 1), ("sonar", "coarse", 1)]
+        plans = [("semgrep-detected", "line", 1), ("import-scheduling", "line", 1), ("detector-less", "coarse", 1), ("sonar", "coarse", 1)]
     else:
-        plans = [("semgrep-detected", "line", 1), ("detector-less", "line", 1), ("sonar", "line", 1),
-                 ("semgrep-detected", "coarse", 2), ("detector-less", "coarse", 2), ("sonar", "coarse", 2), ("four-tasks", "coarse", 2)]
+        plans = [("semgrep-detected", "line", 1), ("import-scheduling", "line", 1), ("detector-less", "line", 1), ("sonar", "line", 1),
+                 ("semgrep-detected", "coarse", 2), ("import-scheduling", "coarse", 2), ("detector-less", "coarse", 2), ("sonar", "coarse", 2), ("four-tasks", "coarse", 2)]
     sched_cov = []
     total_exec = 0
     for driver, gran, bound in plans:
